@@ -244,18 +244,7 @@ func (w *vc06World) step(label string) {
 	}
 }
 
-func (w *vc06World) observe() string {
-	c := w.client
-	c.mu.RLock()
-	ctx, ok := c.channels["ch"]
-	c.mu.RUnlock()
-	ch := "none"
-	if ok {
-		ch = "res"
-		if channelHasFlag(ctx.flags, flagSubscribed) {
-			ch = "sub"
-		}
-	}
+func (w *vc06World) liveList() []string {
 	live := []string{}
 	parked := map[string]bool{}
 	for _, k := range w.g.parkedKeys() {
@@ -268,6 +257,22 @@ func (w *vc06World) observe() string {
 		}
 	}
 	sort.Strings(live)
+	return live
+}
+
+func (w *vc06World) observe() string {
+	c := w.client
+	c.mu.RLock()
+	ctx, ok := c.channels["ch"]
+	c.mu.RUnlock()
+	ch := "none"
+	if ok {
+		ch = "res"
+		if channelHasFlag(ctx.flags, flagSubscribed) {
+			ch = "sub"
+		}
+	}
+	live := w.liveList()
 	present, info := "0", "-"
 	pres, err := w.node.Presence("ch")
 	if err != nil {
@@ -296,7 +301,15 @@ func vc06Scenario(line string) (res string) {
 	if len(parts) != 2 || !strings.HasPrefix(strings.TrimSpace(parts[0]), "prun") {
 		return "bad-op"
 	}
-	labels := strings.Fields(parts[1])
+	labelPart, expPart, hasExp := strings.Cut(parts[1], ";")
+	labels := strings.Fields(labelPart)
+	var exp []string
+	if hasExp {
+		expPart = strings.TrimSpace(expPart)
+		if strings.HasPrefix(expPart, "exp=") {
+			exp = strings.Split(strings.TrimPrefix(expPart, "exp="), "/")
+		}
+	}
 	defer func() {
 		if r := recover(); r != nil {
 			res = fmt.Sprintf("PANIC %v", r)
@@ -348,13 +361,23 @@ func vc06Scenario(line string) (res string) {
 	g.mu.Lock()
 	g.armed = true
 	g.mu.Unlock()
-	for _, l := range labels {
+	diverged := -1
+	for i, l := range labels {
 		w.step(l)
 		if len(w.errs) > 0 {
 			break
 		}
+		// the model's in-flight set after every label (when given): stop at the first difference, before a
+		// later label could send a goroutine into a lock the model does not know to be held
+		if i < len(exp) && strings.Join(w.liveList(), ",") != exp[i] {
+			diverged = i
+			break
+		}
 	}
 	res = w.observe()
+	if diverged >= 0 {
+		res += fmt.Sprintf(" diverged=%d", diverged)
+	}
 	g.mu.Lock()
 	errs := append([]string(nil), w.errs...)
 	g.armed = false
@@ -362,14 +385,20 @@ func vc06Scenario(line string) (res string) {
 	if len(errs) > 0 {
 		res = "HARNESS-ERR " + strings.Join(errs, ",") + " " + res
 	}
-	for i := 0; i < 50; i++ {
+	for i := 0; i < 200; i++ {
 		ks := g.parkedKeys()
 		if len(ks) == 0 {
 			break
 		}
+		// holders of presenceMu (tick, close) before the others
+		pick := ks[0]
 		for _, k := range ks {
-			g.release(k)
+			if strings.HasPrefix(k, "T@") || strings.HasPrefix(k, "C@rmpres") {
+				pick = k
+				break
+			}
 		}
+		g.release(pick)
 		synctest.Wait()
 	}
 	_ = client.close(DisconnectForceNoReconnect)
